@@ -1407,13 +1407,21 @@ def task(t):
 def option_tags(R):
     A = R["A"]
     t = []
-    for a in R["argv"]:
+    argv = R["argv"]
+    i = 0
+    while i < len(argv):
+        a = argv[i]
+        if a == "--":
+            t.append("-- (end of options)")
+            break
         if a.startswith("--") and len(a) > 2 and a[2:].replace("-", "").isalnum():
             t.append(a)
-        elif re.fullmatch(r"-[A-Za-z]+", a):
+            i += 3 if a in ("--arg", "--argjson", "--slurpfile", "--rawfile") else \
+                2 if a in ("--from", "--to", "--indent") else 1
+            continue
+        if re.fullmatch(r"-[A-Za-z]+", a):
             t.extend("-" + ch for ch in a[1:])
-        elif a == "--":
-            t.append("-- (end of options)")
+        i += 1
     # only those that the realisation placed as options (a value of --arg may look like a flag)
     known = {"-n", "--null-input", "-s", "--slurp", "-R", "--raw-input", "--raw-input0", "--from", "--to", "-r",
              "--raw-output", "--raw-output0", "-j", "--join-output", "-c", "--compact-output", "--tab", "--indent",
